@@ -130,13 +130,17 @@ func (r *RibEntry) updateOwnNexthopsEnc() {
 	routes := append([]*Route{}, r.routes...)
 
 	// Get all possible nexthops for parents that are inherited,
-	// unless we have the capture flag set
+	// unless we have the capture flag set. Inheritance stops at (and
+	// includes) the nearest ancestor holding a capture route.
 	if !r.HasCaptureRoute() {
-		for entry := r; entry != nil; entry = entry.parent {
+		for entry := r.parent; entry != nil; entry = entry.parent {
 			for _, route := range entry.routes {
 				if route.HasChildInheritFlag() {
 					routes = append(routes, route)
 				}
+			}
+			if entry.HasCaptureRoute() {
+				break
 			}
 		}
 	}
